@@ -8,7 +8,7 @@ package main
 //	initialize    partitionstyle.realBatchControlPlane.Initialize   → deployment.realController.Initialize
 //	upgradeBatch  partitionstyle.realBatchControlPlane.UpgradeBatch → deployment.realController.UpgradeBatch
 //	finalize      partitionstyle.realBatchControlPlane.Finalize     → deployment.realController.Finalize
-//	admit         mutating.WorkloadHandler.handleDeployment (a user's / API update passing the workload webhook)
+//	submit         mutating.WorkloadHandler.handleDeployment (a user's / API update passing the workload webhook)
 //
 // each with an optional API fault (the Get of the Deployment fails / the write fails).  After every
 // step the Deployment is abstracted back; the Lean model (RV.CtlPDeploy) replays the same walk and
@@ -82,7 +82,7 @@ type pdEdit struct {
 }
 
 type pdStep struct {
-	Call  string  `json:"call"`  // initialize | upgradeBatch | finalize | admit
+	Call  string  `json:"call"`  // initialize | upgradeBatch | finalize | submit
 	Fault string  `json:"fault"` // none | get | write
 	Batch int     `json:"batch"` // status.canaryStatus.currentBatch seen by upgradeBatch
 	BpNil bool    `json:"bpNil"` // spec.releasePlan.batchPartition == nil (finalize)
@@ -316,7 +316,7 @@ func pdStepRun(base client.Client, in *pdIn, st pdStep, orig interface{}) interf
 	out := J{"obs": nil}
 	var err error
 	switch st.Call {
-	case "admit":
+	case "submit":
 		err = pdAdmit(base, st.Edit)
 	default:
 		rel := pdRelease(in, st)
@@ -510,7 +510,7 @@ func pdFault(c *Ctx, p int) string {
 	return "none"
 }
 
-// pdLifeCycle: a Deployment as its user configured it goes through admit ; initialize ; … ; finalize
+// pdLifeCycle: a Deployment as its user configured it goes through submit ; initialize ; … ; finalize
 func pdLifeCycle(c *Ctx) *pdIn {
 	R := 1 + c.Rng.Intn(12)
 	if c.Rng.Intn(12) == 0 {
@@ -537,19 +537,19 @@ func pdLifeCycle(c *Ctx) *pdIn {
 	}
 	add := func(s pdStep) {
 		in.Steps = append(in.Steps, s)
-		if c.Rng.Intn(5) == 0 && s.Call != "admit" { // repeat the call (idempotence)
+		if c.Rng.Intn(5) == 0 && s.Call != "submit" { // repeat the call (idempotence)
 			s.Fault = "none"
 			in.Steps = append(in.Steps, s)
 		}
 	}
-	newTmpl := func() pdStep { tm++; return pdStep{Call: "admit", Fault: "none", Edit: &pdEdit{Tmpl: pdIntP(tm)}} }
+	newTmpl := func() pdStep { tm++; return pdStep{Call: "submit", Fault: "none", Edit: &pdEdit{Tmpl: pdIntP(tm)}} }
 	if c.Rng.Intn(10) != 0 {
 		add(newTmpl())
 	}
 	if c.Rng.Intn(12) != 0 {
 		add(pdStep{Call: "initialize", Fault: pdFault(c, fp)})
 		if c.Rng.Intn(3) == 0 {
-			add(pdStep{Call: "admit", Fault: "none"}) // the controller's write passes the webhook
+			add(pdStep{Call: "submit", Fault: "none"}) // the controller's write passes the webhook
 		}
 	}
 	n := c.Rng.Intn(9)
@@ -563,7 +563,7 @@ func pdLifeCycle(c *Ctx) *pdIn {
 		case 5:
 			add(pdStep{Call: "initialize", Fault: pdFault(c, fp)})
 		case 6:
-			add(pdStep{Call: "admit", Fault: "none"})
+			add(pdStep{Call: "submit", Fault: "none"})
 		case 7:
 			add(newTmpl())
 		case 8, 9: // kubectl apply of the manifest: strategy re-submitted
@@ -572,9 +572,9 @@ func pdLifeCycle(c *Ctx) *pdIn {
 				tm++
 				e.Tmpl = pdIntP(tm)
 			}
-			add(pdStep{Call: "admit", Fault: "none", Edit: e})
+			add(pdStep{Call: "submit", Fault: "none", Edit: e})
 		case 10: // scale
-			add(pdStep{Call: "admit", Fault: "none", Edit: &pdEdit{Replicas: pdIntP(c.Rng.Intn(14))}})
+			add(pdStep{Call: "submit", Fault: "none", Edit: &pdEdit{Replicas: pdIntP(c.Rng.Intn(14))}})
 		case 11, 12: // continuous release: the BatchRelease is deleted mid-way, a new one claims
 			add(pdStep{Call: "finalize", Fault: pdFault(c, fp), Batch: batch, BpNil: false})
 			if c.Rng.Intn(6) != 0 {
@@ -597,7 +597,7 @@ func pdLifeCycle(c *Ctx) *pdIn {
 		case 0:
 			in.Steps = append(in.Steps, pdStep{Call: "finalize", Fault: "none", Batch: batch, BpNil: true})
 		case 1:
-			in.Steps = append(in.Steps, pdStep{Call: "admit", Fault: "none"})
+			in.Steps = append(in.Steps, pdStep{Call: "submit", Fault: "none"})
 		}
 	}
 	return in
@@ -689,7 +689,7 @@ func pdAnyWalk(c *Ctx) *pdIn {
 	nb := len(in.Batches)
 	n := 1 + c.Rng.Intn(4)
 	for i := 0; i < n; i++ {
-		s := pdStep{Call: pdPick(c, "initialize", "initialize", "upgradeBatch", "upgradeBatch", "upgradeBatch", "finalize", "finalize", "admit", "admit").(string),
+		s := pdStep{Call: pdPick(c, "initialize", "initialize", "upgradeBatch", "upgradeBatch", "upgradeBatch", "finalize", "finalize", "submit", "submit").(string),
 			Fault: pdFault(c, 20), BpNil: c.Rng.Intn(2) == 0}
 		if nb > 0 {
 			s.Batch = c.Rng.Intn(nb)
@@ -700,12 +700,12 @@ func pdAnyWalk(c *Ctx) *pdIn {
 		case 1:
 			s.Batch = -1
 		}
-		if s.Call == "admit" {
+		if s.Call == "submit" {
 			s.Fault = "none"
 			s.Edit = pdAnyEdit(c)
 		}
 		in.Steps = append(in.Steps, s)
-		if c.Rng.Intn(4) == 0 && s.Call != "admit" {
+		if c.Rng.Intn(4) == 0 && s.Call != "submit" {
 			s.Fault = "none"
 			in.Steps = append(in.Steps, s)
 		}
